@@ -258,6 +258,8 @@ func (w *Workload) runDriven(st *store.ImmuStore, rng *rand.Rand) error {
 			h, err := commitKVs(st, kvs, async, 120*time.Second)
 			if err == nil {
 				w.Rec.Ack(h.ID)
+			} else {
+				w.Rec.Mark("commit-failed")
 			}
 			mu.Lock()
 			inflight--
